@@ -276,7 +276,7 @@ class C20(Prop):
         return [self.gen_case(rng.fork("c%d" % i)) for i in range(n)]
 
     def budget(self, tier):
-        return 400 if tier == "quick" else 6000
+        return 300 if tier == "quick" else 6000
 
     def corpus(self, ctx):
         out = []
